@@ -160,7 +160,7 @@ func main() {
 	}
 	a := &analyzer{byObj: map[*types.Func]*fn{}, sorters: map[string]bool{}, pureOK: map[string]bool{}, sortKeys: map[string]int{}, sortWhere: map[string][]string{},
 		sortSeen: map[*ast.CallExpr]bool{}, ourPkg: map[string]bool{}, summaries: map[*fn][]string{}, warmOK: map[string]bool{}, walking: map[*ast.FuncLit]bool{}, fnIx: map[*fn]*fnIndex{}, done: map[string]bool{},
-		locals: map[*fn]map[types.Object]bool{}}
+		locals: map[*fn]map[types.Object]bool{}, derived: map[*fn]int{}}
 	if err := json.Unmarshal(allowJSON, &a.cfg); err != nil {
 		fatal("allow.json: %v", err)
 	}
